@@ -455,7 +455,7 @@ def r7(idx, rep):
         if f.cls == "Matcher":
             rep.check(K.is_const(v, False), "R7", f"{f.file}::{f.qual} skip store", f"Matcher stores {unparse(v)} to skip", K.where(f, s["stmt"]))
         else:
-            rep.check(f.qual == "Skipper._skip_me" and K.is_const(v, True), "R7", f"{f.file}::{f.qual} skip store", f"{f.qual} stores {unparse(v)} to the skip flag", K.where(f, s["stmt"]))
+            rep.check(K.owner_of(idx, f, {"Skipper._skip_me"}) is not None and K.is_const(v, True), "R7", f"{f.file}::{f.qual} skip store", f"{f.qual} stores {unparse(v)} to the skip flag", K.where(f, s["stmt"]))
     # Stopper._stop_me stop-called table (verdict part lives in C04.R2)
     fs = idx.method("Stopper", "_stop_me")
     rep.analysed(fs)
